@@ -45,6 +45,17 @@ def fixed_cases():
     yield {'t': ['grp', ['cat', [['t', 'a'], ['line'], ['t', 'b'], ['hard'], ['t', 'c']]]], 'w': 10, 'frac': 1.0, 'strategy': 'smart'}
     yield {'t': ['cat', [['t', 'a'], ['t', ' b '], ['hard'], ['t', ' c'], ['t', ' '], ['t', ' ']]], 'w': 10, 'frac': 1.0, 'strategy': 'smart'}
     yield from _d28_cases()
+    # the same document object laid out again (documents of more than four nodes)
+    T = lambda s: ['t', s]
+    for t in (['grp', ['cat', [['line'], ['ab', ['line']]]]],
+              ['grp', ['cat', [T('a'), ['line'], ['ab', ['cat', [T('b'), ['line'], T('c')]]]]]],
+              ['nest', 2, ['grp', ['cat', [['ab', T('x')], ['line'], T('y')]]]],
+              ['grp', ['cat', [T('a'), ['nest', 2, ['cat', [['line'], ['ab', ['grp', ['cat', [T('b'), ['line'], T('c')]]]]]]]]]],
+              ['fill', [['grp', ['cat', [T('a'), ['ab', ['line']], T('b')]]], ['line'], T('c')]],
+              ['grp', ['ann', 0, ['cat', [T('a'), ['line'], ['ab', T('b')]]]]]):
+        for s in ('smart', 'fast'):
+            for w in (3, 40):
+                yield {'t': t, 'w': w, 'frac': 1.0, 'strategy': s, 'pre': [[40, 1.0, 'smart'], [3, 0.5, 'fast']]}
 
 
 def _d28_cases():
